@@ -176,8 +176,10 @@ def run_check(pid, tier, seed, replay=None, jobs=None, only=None):
     ev = dict(property_id=pid, tier=tier, seed=seed, level=getattr(mod, "LEVEL", "exploration"),
               coverage=cov, assumptions=getattr(mod, "ASSUMPTIONS", []), wall_s=round(time.time() - t0, 2),
               violations=len(new_violations))
-    if not replay:
-        with open(os.path.join(ROOT, "evidence", pid + ".json"), "w") as f:
+    if not replay and not only:
+        evdir = os.path.join(ROOT, "evidence") if REPO == "/repo" else os.path.join(ROOT, "out", "evidence_scratch")
+        os.makedirs(evdir, exist_ok=True)
+        with open(os.path.join(evdir, pid + ".json"), "w") as f:
             json.dump(ev, f, indent=1, default=str)
     # ------------------------------------------------------------------ report
     for fid, lst in sorted(known_fired.items()):
